@@ -1,7 +1,7 @@
-(* C28 proofs, part 9: the backward cursor.  find_prev_leaf (re-descent from the root by the
-   last key of the current leaf, pop to the first ancestor with a left sibling, rightmost leaf of
-   that sibling) finds the in-order predecessor leaf; the walk therefore enumerates the leaves from
-   the last one backwards and stops early only at an empty leaf. *)
+(* C28 proofs, part 9: the backward cursor (code as of commit 8f0490a).  find_prev_leaf (re-descent from
+   the root by the last key of the current leaf, then at every ancestor the left siblings, nearest first,
+   searched by find_rightmost_nonempty) finds the nearest NON-EMPTY leaf to the left; cursor_last starts
+   at the rightmost non-empty leaf.  The walk therefore enumerates every entry, in reverse key order. *)
 From Coq Require Import ZArith List Bool Lia Sorting.Permutation Sorting.Sorted.
 From TV Require Import Lib.MachInt Gen.Varint Model.BTree Model.BTreeSpec Model.BTreeInv
   Proof.BTreeOrder Proof.BTreeInv Proof.BTreeLeaf Proof.BTreeScan.
@@ -28,70 +28,97 @@ Notation kabs := (kabs V).
 Notation kleaves := (kleaves V).
 Notation flat := (flat V).
 
-Definition ll_res (ll : option leaf) : pres :=
-  match ll with None => PUp | Some p => if lempty V p then PNone else PFound p end.
+Definition ne (l : leaf) : option leaf := if lempty V l then None else Some l.
+(* the last non-empty leaf of a sequence *)
+Definition lastne (ls : list leaf) : option leaf := first_some ne (rev ls).
+
+Lemma first_some_app {A B} (f : A -> option B) (a b : list A) :
+  first_some f (a ++ b) = match first_some f a with Some x => Some x | None => first_some f b end.
+Proof. induction a as [|x a IH]; [reflexivity|]. cbn [app first_some]. destruct (f x); [reflexivity | exact IH]. Qed.
+
+Lemma lastne_app (a b : list leaf) : lastne (a ++ b) = match lastne b with Some x => Some x | None => lastne a end.
+Proof. unfold lastne. rewrite rev_app_distr. apply first_some_app. Qed.
+Lemma lastne_nil : lastne [] = None.
+Proof. reflexivity. Qed.
+Lemma lastne_one l : lastne [l] = ne l.
+Proof. unfold lastne. cbn. destruct (ne l); reflexivity. Qed.
+
+Lemma flat_app (a b : list leaf) : flat (a ++ b) = flat a ++ flat b.
+Proof. unfold BTreeScan.flat. apply flat_map_app. Qed.
+
+Lemma lastne_none (ls : list leaf) : lastne ls = None -> flat ls = [].
+Proof.
+  induction ls as [|l r IH] using rev_ind; intros H; [reflexivity|].
+  rewrite lastne_app, lastne_one in H. unfold ne, lempty in H. destruct (lcells l) eqn:E; [|discriminate].
+  rewrite flat_app, (IH H). unfold BTreeScan.flat. cbn. rewrite E. reflexivity.
+Qed.
+Lemma lastne_some (ls : list leaf) p : lastne ls = Some p ->
+  exists a b, ls = a ++ p :: b /\ lcells p <> [] /\ flat b = [].
+Proof.
+  induction ls as [|l r IH] using rev_ind; intros H; [discriminate|].
+  rewrite lastne_app, lastne_one in H. unfold ne, lempty in H. destruct (lcells l) eqn:E.
+  - destruct (IH H) as (a & b & -> & Hp & Hb). exists a, (b ++ [l]). split; [rewrite <- app_assoc; reflexivity|]. split; [exact Hp|].
+    rewrite flat_app, Hb. unfold BTreeScan.flat. cbn. rewrite E. reflexivity.
+  - injection H as <-. exists r, []. split; [reflexivity|]. split; [rewrite E; discriminate | reflexivity].
+Qed.
+
+Lemma kids_bounded_each (P : option key -> option key -> tree -> Prop) kids : forall lo hi r,
+  kids_bounded V P lo hi kids r -> (forall sc, In sc kids -> exists lo' hi', P lo' hi' (snd sc)) /\ exists lo', P lo' hi r.
+Proof.
+  induction kids as [|sc rest IH]; intros lo hi r HB; [split; [intros sc [] | exists lo; exact HB]|].
+  destruct HB as (_ & _ & H3 & H4). destruct (IH _ _ _ H4) as [I1 I2]. split; [|exact I2].
+  intros x [<- | Hx]; [exists lo, (Some (fst sc)); exact H3 | apply I1; exact Hx].
+Qed.
+
+(* find_rightmost_nonempty finds the last non-empty leaf of the subtree *)
+Lemma rnl_spec : forall h lo hi (t : tree), bounded h lo hi t -> rnl V h t = lastne (leaves h t).
+Proof.
+  induction h as [|h' IH]; intros lo hi t HB; destruct t as [l | id kids r]; cbn in HB; try contradiction.
+  - cbn [rnl BTree.leaves]. rewrite lastne_one. reflexivity.
+  - destruct HB as [_ HB]. destruct (kids_bounded_each _ _ _ _ _ HB) as [Hk (lo' & Hr)].
+    cbn [rnl]. rewrite leaves_node. unfold BTreeInv.kleaves. rewrite lastne_app. cbn [first_some]. rewrite (IH _ _ _ Hr).
+    destruct (lastne (leaves h' r)); [reflexivity|]. clear Hr HB.
+    induction kids as [|sc rest IHk]; [reflexivity|]. cbn [map rev flat_map]. rewrite first_some_app, lastne_app.
+    rewrite IHk by (intros x Hx; apply Hk; right; exact Hx). destruct (lastne (flat_map (fun sc0 : kid => leaves h' (snd sc0)) rest)); [reflexivity|].
+    cbn [first_some]. destruct (Hk sc (or_introl eq_refl)) as (a & b & Hc). rewrite (IH _ _ _ Hc). destruct (lastne (leaves h' (snd sc))); reflexivity.
+Qed.
+
+Definition ll_res (ll : option leaf) : pres := match ll with None => PUp | Some p => PFound p end.
 Definition prev_res (ll : option leaf) (pre : list leaf) : pres :=
-  match rev pre with
-  | p :: _ => if lempty V p then PNone else PFound p
-  | [] => ll_res ll
-  end.
+  match lastne pre with Some p => PFound p | None => ll_res ll end.
 
 Definition fpk (h' : nat) (ll : option leaf) (kids : list kid) (r : tree) (nav : key) (cur : Z) : pres :=
   match find_prev V h' (child_at V kids r (cidx V nav kids)) nav cur with
-  | PUp => match cidx V nav kids with
-           | O => ll_res ll
-           | S j => let l' := last_leaf V (child_at V kids r j) in if lempty V l' then PNone else PFound l'
+  | PUp => match first_some (rnl V h') (rev (map snd (firstn (cidx V nav kids) kids))) with
+           | Some l' => PFound l'
+           | None => ll_res ll
            end
   | PFound l => PFound l
-  | PNone => PNone
   | PErr => PErr
   end.
 
 Lemma find_prev_node h' id kids r nav cur : find_prev V (S h') (Node id kids r) nav cur = fpk h' None kids r nav cur.
-Proof.
-  cbn [find_prev]. unfold fpk. destruct (find_prev V h' (child_at V kids r (cidx V nav kids)) nav cur); reflexivity.
-Qed.
+Proof. reflexivity. Qed.
 
 Lemma fpk_cons_lt h' ll sc rest r nav cur : kltb nav (fst sc) = true ->
   fpk h' ll (sc :: rest) r nav cur =
-  match find_prev V h' (snd sc) nav cur with PUp => ll_res ll | PFound l => PFound l | PNone => PNone | PErr => PErr end.
+  match find_prev V h' (snd sc) nav cur with PUp => ll_res ll | PFound l => PFound l | PErr => PErr end.
 Proof. intros E. unfold fpk. cbn [cidx]. rewrite E. reflexivity. Qed.
 
 Lemma fpk_cons_ge h' ll sc rest r nav cur : kltb nav (fst sc) = false ->
-  fpk h' ll (sc :: rest) r nav cur = fpk h' (Some (last_leaf V (snd sc))) rest r nav cur.
+  fpk h' ll (sc :: rest) r nav cur =
+  fpk h' (match rnl V h' (snd sc) with Some x => Some x | None => ll end) rest r nav cur.
 Proof.
   intros E. unfold fpk. cbn [cidx]. rewrite E. rewrite child_at_S.
   destruct (find_prev V h' (child_at V rest r (cidx V nav rest)) nav cur); try reflexivity.
-  destruct (cidx V nav rest); reflexivity.
+  cbn [firstn map rev]. rewrite first_some_app.
+  match goal with |- context [first_some ?f (rev ?x)] => destruct (first_some f (rev x)) end; [reflexivity|].
+  cbn [first_some]. destruct (rnl V h' (snd sc)); reflexivity.
 Qed.
 
-Lemma prev_res_nil ll : prev_res ll [] = ll_res ll.
-Proof. reflexivity. Qed.
-Lemma prev_res_snoc ll pre p : prev_res ll (pre ++ [p]) = if lempty V p then PNone else PFound p.
-Proof. unfold prev_res. rewrite rev_app_distr. reflexivity. Qed.
-
-(* combining the answer inside a child with what lies to its left *)
 Lemma lift_prev ll pre :
-  match prev_res None pre with PUp => ll_res ll | PFound l => PFound l | PNone => PNone | PErr => PErr end = prev_res ll pre.
-Proof.
-  destruct pre as [|x pre] using rev_ind; [reflexivity|]. rewrite !prev_res_snoc. destruct (lempty V x); reflexivity.
-Qed.
-
-Lemma kids_bounded_right (P : option key -> option key -> tree -> Prop) kids : forall lo hi r,
-  kids_bounded V P lo hi kids r -> exists lo', P lo' hi r.
-Proof.
-  induction kids as [|sc rest IH]; intros lo hi r HB; [exists lo; exact HB|].
-  destruct HB as (_ & _ & _ & H4). eapply IH. exact H4.
-Qed.
-
-Lemma leaves_last : forall h lo hi (t : tree), bounded h lo hi t -> exists pre, leaves h t = pre ++ [last_leaf V t].
-Proof.
-  induction h as [|h' IH]; intros lo hi t HB; destruct t as [l | id kids r]; cbn in HB; try contradiction.
-  - exists []. reflexivity.
-  - destruct HB as [_ HB]. destruct (kids_bounded_right _ _ _ _ _ HB) as (lo' & Hr).
-    destruct (IH _ _ _ Hr) as (pre & Hp). rewrite leaves_node. unfold BTreeInv.kleaves. rewrite Hp. cbn [last_leaf].
-    eexists. rewrite app_assoc. reflexivity.
-Qed.
+  match prev_res None pre with PUp => ll_res ll | PFound l => PFound l | PErr => PErr end = prev_res ll pre.
+Proof. unfold prev_res. destruct (lastne pre); reflexivity. Qed.
 
 Lemma in_leaf_in_abs h (t : tree) pre l post nav : leaves h t = pre ++ l :: post -> In nav (keys (lcells l)) ->
   exists v, In (nav, v) (abs h t).
@@ -108,7 +135,7 @@ Lemma fpk_spec h' :
     In nav (keys (lcells l)) -> fpk h' ll kids r nav (lid l) = prev_res ll pre.
 Proof.
   intros IH. induction kids as [|sc rest IHk]; intros lo hi r ll pre l post nav HB Hl Hn.
-  - unfold fpk. cbn [cidx child_at nth_error]. change (kleaves h' [] r) with (leaves h' r) in Hl.
+  - unfold fpk. cbn [cidx child_at nth_error firstn map rev first_some]. change (kleaves h' [] r) with (leaves h' r) in Hl.
     rewrite (IH _ _ _ _ _ _ _ HB Hl Hn). apply lift_prev.
   - destruct HB as (H1 & H2 & H3 & H4). rewrite kleaves_cons in Hl.
     assert (Hcase : (exists m', leaves h' (snd sc) = pre ++ l :: m') \/ (exists m, pre = leaves h' (snd sc) ++ m /\ kleaves h' rest r = m ++ l :: post)).
@@ -129,9 +156,8 @@ Proof.
         pose proof (kabs_in_bounds V vlen h' (abs_in_bounds V vlen h') _ _ _ _ H4) as B. unfold BTreeInv.cells_in in B.
         rewrite Forall_forall in B. destruct (B _ Hv) as [B1 _]. exact B1. }
       rewrite fpk_cons_ge by exact Hge. rewrite (IHk _ _ _ _ _ _ _ _ H4 Hr Hn). subst pre.
-      destruct m as [|x m] using rev_ind.
-      * rewrite app_nil_r, prev_res_nil. destruct (leaves_last _ _ _ _ H3) as (p0 & Hp0). rewrite Hp0, prev_res_snoc. reflexivity.
-      * rewrite app_assoc, !prev_res_snoc. reflexivity.
+      unfold prev_res. rewrite lastne_app, (rnl_spec _ _ _ _ H3). destruct (lastne m); [reflexivity|].
+      destruct (lastne (leaves h' (snd sc))); reflexivity.
 Qed.
 
 Lemma find_prev_spec : forall h lo hi (t : tree) pre l post nav, bounded h lo hi t -> leaves h t = pre ++ l :: post ->
@@ -155,51 +181,39 @@ Proof.
   destruct IH as (nav & Hn); [discriminate|]. exists nav. exact Hn.
 Qed.
 
-Lemma flat_app (a b : list leaf) : flat (a ++ b) = flat a ++ flat b.
-Proof. unfold BTreeScan.flat. apply flat_map_app. Qed.
-
 Lemma bwd_walk_spec h lo hi (root : tree) : bounded h lo hi root ->
   forall fuel pre l post, leaves h root = pre ++ l :: post -> lcells l <> [] -> (length pre < fuel)%nat ->
-  exists pre1 pre2, pre = pre1 ++ pre2
-    /\ fst (bwd_walk V fuel h root l) = rev (flat (pre2 ++ [l]))
-    /\ ((snd (bwd_walk V fuel h root l) = 0 /\ pre1 = []) \/ snd (bwd_walk V fuel h root l) = 1).
+  bwd_walk V fuel h root l = (rev (flat (pre ++ [l])), 0).
 Proof.
   intros HB. induction fuel as [|f IH]; intros pre l post Hl Hne Hf; [lia|].
   cbn [bwd_walk]. destruct (last_key_some _ Hne) as (nav & Hnav). rewrite Hnav.
-  rewrite (find_prev_spec h lo hi root pre l post nav HB Hl (last_key_in _ _ Hnav)).
-  destruct pre as [|p pre'] using rev_ind.
-  - rewrite prev_res_nil. cbn [ll_res fst snd]. exists [], []. split; [reflexivity|]. split; [|left; split; reflexivity].
-    cbn [app]. unfold BTreeScan.flat. cbn [flat_map]. rewrite app_nil_r. reflexivity.
-  - clear IHpre'. rewrite prev_res_snoc. destruct (lempty V p) eqn:Ep.
-    + cbn [fst snd]. exists (pre' ++ [p]), []. split; [rewrite app_nil_r; reflexivity|]. split; [|right; reflexivity].
-      cbn [app]. unfold BTreeScan.flat. cbn [flat_map]. rewrite app_nil_r. reflexivity.
-    + assert (Hpne : lcells p <> []) by (unfold lempty in Ep; destruct (lcells p); [discriminate | discriminate]).
-      rewrite <- app_assoc in Hl. cbn [app] in Hl. rewrite app_length in Hf. cbn [length] in Hf.
-      destruct (IH pre' p (l :: post) Hl Hpne ltac:(lia)) as (p1 & p2 & E1 & E2 & E3).
-      destruct (bwd_walk V f h root p) as [es st]. cbn [fst snd] in *.
-      exists p1, (p2 ++ [p]). split; [rewrite E1, app_assoc; reflexivity|]. split; [|exact E3].
-      rewrite E2, <- app_assoc, !flat_app, !rev_app_distr. unfold BTreeScan.flat. cbn [flat_map app]. rewrite !app_nil_r.
-      rewrite app_assoc. reflexivity.
+  rewrite (find_prev_spec h lo hi root pre l post nav HB Hl (last_key_in _ _ Hnav)). unfold prev_res.
+  destruct (lastne pre) as [p|] eqn:Ep.
+  - destruct (lastne_some _ _ Ep) as (a & b & -> & Hp & Hb). cbn [ll_res].
+    rewrite <- app_assoc in Hl. cbn [app] in Hl. rewrite app_length in Hf. cbn [length] in Hf.
+    rewrite (IH a p (b ++ l :: post) Hl Hp ltac:(lia)). f_equal.
+    replace ((a ++ p :: b) ++ [l]) with ((a ++ [p]) ++ b ++ [l]) by (rewrite <- !app_assoc; reflexivity).
+    rewrite (flat_app (a ++ [p])), (flat_app b), Hb. cbn [app]. rewrite rev_app_distr. f_equal.
+    unfold BTreeScan.flat. cbn [flat_map]. rewrite app_nil_r. reflexivity.
+  - cbn [ll_res]. f_equal. rewrite flat_app, (lastne_none _ Ep). unfold BTreeScan.flat. cbn [flat_map app]. rewrite app_nil_r. reflexivity.
 Qed.
 
-(* the whole backward enumeration: equal to the reversed map whenever it was not cut short *)
-Lemma bwd_ok h lo hi (root : tree) : bounded h lo hi root -> lempty V (last_leaf V root) = false ->
-  let r := bwd_walk V (length (leaves h root)) h root (last_leaf V root) in
-  (snd r = 0 \/ (snd r = 1 /\ (length (fst r) <? length (abs h root))%nat = false)) -> fst r = rev (abs h root).
+(* cursor_last + prev ... : every entry, in reverse order *)
+Lemma bwd_ok h lo hi (root : tree) : bounded h lo hi root ->
+  match (if lempty V (last_leaf V root) then rnl V h root else Some (last_leaf V root)) with
+  | None => abs h root = []
+  | Some l => bwd_walk V (length (leaves h root)) h root l = (rev (abs h root), 0)
+  end.
 Proof.
-  intros HB Hne r Hst. destruct (leaves_last h lo hi root HB) as (pre & Hp).
-  assert (Hcne : lcells (last_leaf V root) <> []) by (unfold lempty in Hne; destruct (lcells (last_leaf V root)); discriminate).
-  destruct (bwd_walk_spec h lo hi root HB (length (leaves h root)) pre (last_leaf V root) [] Hp Hcne) as (p1 & p2 & E1 & E2 & E3).
-  { rewrite Hp, app_length. cbn [length]. lia. }
-  fold r in E2, E3. unfold BTree.abs. rewrite Hp, E1. rewrite E2.
-  assert (Hflat : flat p1 = []).
-  { destruct Hst as [H0 | [H1 Hlen]].
-    - destruct E3 as [[_ ->] | E3]; [reflexivity | congruence].
-    - apply Nat.ltb_ge in Hlen. rewrite E2 in Hlen. unfold BTree.abs in Hlen. rewrite Hp, E1 in Hlen.
-      rewrite rev_length in Hlen. change (flat_map (@lcells V)) with flat in Hlen. rewrite <- !app_assoc in Hlen.
-      rewrite (flat_app p1) in Hlen. rewrite app_length in Hlen. apply length_zero_iff_nil. lia. }
-  change (flat_map (@lcells V) ((p1 ++ p2) ++ [last_leaf V root])) with (flat ((p1 ++ p2) ++ [last_leaf V root])).
-  rewrite <- app_assoc, (flat_app p1), Hflat. reflexivity.
+  intros HB. destruct (leaves_last_c28 V vlen h lo hi root HB) as (pre0 & Hp0).
+  assert (Hstart : (if lempty V (last_leaf V root) then rnl V h root else Some (last_leaf V root)) = lastne (leaves h root)).
+  { rewrite (rnl_spec h lo hi root HB), Hp0, lastne_app, lastne_one. unfold ne. destruct (lempty V (last_leaf V root)); reflexivity. }
+  rewrite Hstart. destruct (lastne (leaves h root)) as [l|] eqn:El.
+  - destruct (lastne_some _ _ El) as (a & b & Hab & Hl & Hb).
+    rewrite (bwd_walk_spec h lo hi root HB (length (leaves h root)) a l b Hab Hl) by (rewrite Hab, app_length; cbn [length]; lia).
+    f_equal. f_equal. unfold BTree.abs. rewrite Hab. change (flat_map (@lcells V)) with flat.
+    rewrite !flat_app. change (l :: b) with ([l] ++ b). rewrite flat_app, Hb, app_nil_r. reflexivity.
+  - exact (lastne_none _ El).
 Qed.
 
 End B.
